@@ -26,11 +26,11 @@ pub static DEF: CheckDef = CheckDef {
     id: "C04",
     level: "exploration",
     technique: "deterministic multi-node network simulation with adversarial delivery: concurrent DHT RPCs and /rr/ requests with seeded start times, a forger with full view of the wire injecting replayed/unknown/duplicated/late replies on chosen connections, dropped genuine replies, cancelled client futures, cap overflow; oracle = every outcome is a function of the request's own genuine frames, pending tables bounded and empty at quiescence",
-    runs: (400, 15000),
+    runs: (1500, 40000),
     generate,
     execute,
     shrink,
-    rule: "each run = 2..5 real nodes in a full mesh + one forger stub; 4..24 requests (DHT ping/find-node RPCs and /rr/ requests) with seeded start offsets, each with a plan for its genuine reply (normal, dropped, late, duplicated) and an optional cancellation instant; 0..12 forgeries (right id on a wrong connection, unknown id, cross id from a third party) timed inside the request's life; one run in eight fires 300 simultaneous /rr/ requests; non-trivial = at least one forgery delivered while its target request was pending and at least one cancellation; distinct = distinct hash of the (request, outcome) log",
+    rule: "each run = 2..5 real nodes in a full mesh + one forger stub; 4..24 requests (DHT ping/find-node RPCs and /rr/ requests) with seeded start offsets, each with a plan for its genuine reply (normal, slow = after 50..65% of the timeout, dropped, late, duplicated) and an optional cancellation instant; 0..12 forgeries (right id on a wrong connection, unknown id, cross id from a third party) timed inside the request's life; one run in eight fires 300 simultaneous /rr/ requests; non-trivial = at least one forgery delivered while its target request was pending and at least one cancellation; distinct = distinct hash of the (request, outcome) log",
     real_components: &["TransportHandle::send_request / send_response / receive loop (/rr/ correlation, expected_peer check, cap)", "DhtNetworkManager::send_request -> send_dht_request / wait_for_response / handle_dht_response / sweep_expired_operations"],
     stubbed_components: &["ant-quic: in-memory network", "forger: harness-driven frame injection with a chosen connection identity", "application responder for /rr/ requests (answers through the real send_response)"],
     assumptions: &["a reply from the contacted peer that carries another pending request's id of the same peer is that peer's own (mis)behaviour and completes that other request: not judged"],
@@ -47,7 +47,7 @@ fn generate(seed: u64, tier: Tier) -> Value {
         let mut to = r.below(n);
         if to == from { to = (to + 1) % n; }
         reqs.push(json!({"r": i, "kind": *r.pick(&["dht", "dht", "rr", "rr", "rr"]), "from": from, "to": to, "start_ms": r.below(300),
-                         "genuine": *r.pick(&["normal", "normal", "normal", "drop", "late", "dup"]),
+                         "genuine": *r.pick(&["normal", "normal", "normal", "slow", "slow", "drop", "late", "dup"]), "slow_pct": r.range(50, 65),
                          "cancel_ms": if r.chance(1, 5) { json!(r.range(1, timeout_ms)) } else { Value::Null }}));
     }
     let mut forg = Vec::new();
@@ -105,7 +105,11 @@ fn execute(sc: &Value) -> RunReport {
         // request r is recognised on the wire by its payload tag (rr) or by its key (dht find-node with key = tag)
         let plan: Arc<Mutex<HashMap<String, String>>> = Arc::new(Mutex::new(HashMap::new())); // message id -> fate of its genuine reply
         let wire_ids: Arc<Mutex<BTreeMap<u64, (String, u64)>>> = Arc::new(Mutex::new(BTreeMap::new())); // r -> (message id, sent at)
-        let genuine_of: Vec<String> = reqs.iter().map(|q| q["genuine"].as_str().unwrap_or("normal").to_string()).collect();
+        // "slow" = delivered inside the timeout but only after 50..65% of it
+        let genuine_of: Vec<String> = reqs.iter().map(|q| match q["genuine"].as_str().unwrap_or("normal") {
+            "slow" => format!("slow:{}", timeout_ms * q["slow_pct"].as_u64().unwrap_or(50) / 100),
+            g => g.to_string(),
+        }).collect();
         {
             let plan = plan.clone();
             let wire_ids = wire_ids.clone();
@@ -127,6 +131,7 @@ fn execute(sc: &Value) -> RunReport {
                             Some("drop") => Some("drop".into()),
                             Some("late") => Some("late".into()),
                             Some("dup") => Some("dup".into()),
+                            Some(x) if x.starts_with("slow:") => Some(x.to_string()),
                             _ => None,
                         },
                         _ => None,
@@ -166,6 +171,7 @@ fn execute(sc: &Value) -> RunReport {
                                     "drop" => {}
                                     "late" => { tokio::time::sleep(Duration::from_millis(400_000)).await; let _ = t2.send_response(&source, &proto, &id, reply).await; }
                                     "dup" => { let _ = t2.send_response(&source, &proto, &id, reply.clone()).await; let _ = t2.send_response(&source, &proto, &id, reply).await; }
+                                    x if x.starts_with("slow:") => { tokio::time::sleep(Duration::from_millis(x[5..].parse().unwrap_or(0))).await; let _ = t2.send_response(&source, &proto, &id, reply).await; }
                                     _ => { let _ = t2.send_response(&source, &proto, &id, reply).await; }
                                 }
                             });
@@ -334,7 +340,7 @@ fn execute(sc: &Value) -> RunReport {
             match &out {
                 Outcome::Cancelled => { cancelled += 1; }
                 Outcome::Ok(p) => {
-                    if p.contains("FORGED") || p.contains("f0f0") || (kind == "dht" && *p != want_payload) || (kind == "rr" && *p != want_payload) {
+                    if *p != want_payload {
                         ctx.violate("C04.request.completed_with_foreign_reply", format!("{kind}:{}", if nforged > 0 { "forged_on_other_connection" } else { "other" }), format!("request {r} ({kind} {from}->{to}) completed with payload `{p}`, the contacted peer's genuine reply is `{want_payload}`"));
                     }
                     if genuine == "drop" || genuine == "late" {
@@ -343,7 +349,7 @@ fn execute(sc: &Value) -> RunReport {
                 }
                 Outcome::Err(e) => {
                     // a request whose genuine reply was delivered in time must resolve Ok
-                    if (genuine == "normal" || genuine == "dup") && q["cancel_ms"].is_null() && wire.contains_key(&r) {
+                    if (genuine == "normal" || genuine == "dup" || genuine == "slow") && q["cancel_ms"].is_null() && wire.contains_key(&r) {
                         ctx.violate("C04.request.failed_although_genuine_reply_was_delivered", format!("{kind}:{}", if nforged > 0 { "after_forgery" } else { "no_forgery" }), format!("request {r} ({kind} {from}->{to}) failed with `{e}` although the contacted peer's reply was delivered in time ({nforged} forged frames were aimed at it)"));
                     }
                 }
